@@ -100,17 +100,20 @@ def _slim(e):
     return {k: e[k] for k in keep if k in e}
 
 
-def _judge(rep, name, path, wd, nchunks, corrupted=()):
-    """Validate one event file (plus corrupted copies of its events = binding self-test) in ONE pass of the T spec."""
+def _validate(name, path, wd, nchunks, corrupted=()):
+    """One pass of the T spec over an event file plus corrupted copies of its events (binding self-test). Pure."""
     evs = read_events(path)
     allp = wd / (name + "_all.ndjson")
     write_events(allp, [_slim(e) for e in evs] + [_slim(c) for c, _ in corrupted])
-    v = validate_trace(TSPEC, allp, wd=wd / ("tv_" + name), nchunks=nchunks)
+    return evs, validate_trace(TSPEC, allp, wd=wd / ("tv_" + name), nchunks=nchunks), list(corrupted)
+
+
+def _record(rep, name, evs, v, corrupted):
     if corrupted:
         flagged = {f["tid"]: set(f["fail"]) for f in v["fails"]}
         missing = [c["tid"] for c, clause in corrupted if clause not in flagged.get(c["tid"], ())]
         require(not missing, "self-test: %s accepted corrupted events %s" % (TSPEC, missing[:5]))
-        rep.notes.setdefault("selftests", []).append({"spec": TSPEC, "corrupted_events": len(corrupted),
+        rep.notes.setdefault("selftests", []).append({"spec": TSPEC, "trace": name, "corrupted_events": len(corrupted),
                                                       "all_rejected_with": sorted({c for _, c in corrupted})})
         self_tids = {c["tid"] for c, _ in corrupted}
         v = dict(v, fails=[f for f in v["fails"] if f["tid"] not in self_tids],
@@ -119,7 +122,7 @@ def _judge(rep, name, path, wd, nchunks, corrupted=()):
     pruned, counts = _prune(v, evs)
     rep.add_trace_result(name, evs, pruned)
     rep.notes.setdefault("failing_events_per_key", {}).update(counts)
-    return evs, v
+    return v
 
 
 def run(rep, tier):
@@ -132,7 +135,9 @@ def run(rep, tier):
                 "forall_inst, qnt_*), the intended instances of the reference schema over seed pools of level %d and every one-point near "
                 "miss of them to term depth %d (literal dropped/added/negated/swapped; premise dropped/added/swapped; a connective, atom, "
                 "negation, comparison, arithmetic operator or numeral changed; coefficient / instantiation / clause size perturbed; "
-                "hypotheses attached); each candidate is evaluated by the real macro.eval. Non-trivial = the code ACCEPTED the step and "
+                "hypotheses attached); each candidate is evaluated by the real macro.eval; the candidates that need no extra argument are "
+                "also closed into whole refutation proofs (assume premises, step, assume complements, resolution) run through "
+                "ProofReconstruction.validate_step; plus seeded random larger candidates (random formulas substituted for the atoms). Non-trivial = the code ACCEPTED the step and "
                 "consequence was evaluated in finite models (|'a| <= 2) or on the arithmetic grid; distinct by full event content."
                 % (1 if quick else 3, 1 if quick else 3))
     rep.assumptions = ["consequence is refuted only by an explicit counter-interpretation: finite standard models with |'a| <= 2 (tier E) or "
@@ -171,17 +176,25 @@ def run(rep, tier):
     rep.notes["vectors"] = sum(1 for _ in open(vec))
     rep.notes["proof_vectors"] = sum(1 for _ in open(prf))
     # spec -> code -> spec
-    ev1, ev2 = wd / "replay.ndjson", wd / "proofs_ev.ndjson"
-    run_drivers_parallel([("c18", ["replay", vec, ev1], None), ("c18", ["proofs", prf, ev2], None)])
+    ev1, ev2, ev3 = wd / "replay.ndjson", wd / "proofs_ev.ndjson", wd / "rand.ndjson"
+    run_drivers_parallel([("c18", ["replay", vec, ev1], None), ("c18", ["proofs", prf, ev2], None),
+                          ("c18", ["rand", vec, ev3, 1500 if quick else 20000, seed()], None)])
     bad = _corrupted(read_events(ev1))
     require(len(bad) >= 5 and {c for _, c in bad} == {"Entailed", "HypsSubset"}, "C18: self-test events could not be built")
-    with ThreadPoolExecutor(max_workers=2) as ex:
-        f1 = ex.submit(_judge, rep, "replay", ev1, wd, 1 if quick else 3, bad)
-        f2 = ex.submit(_judge, rep, "proofs", ev2, wd, 1, _corrupted_proofs(read_events(ev2)))
-        evs, v = f1.result()
-        pevs, pv = f2.result()
+    with ThreadPoolExecutor(max_workers=3) as ex:
+        f1 = ex.submit(_validate, "replay", ev1, wd, 1 if quick else 2, bad)
+        f2 = ex.submit(_validate, "proofs", ev2, wd, 1, _corrupted_proofs(read_events(ev2)))
+        f3 = ex.submit(_validate, "rand", ev3, wd, 1)
+        evs, v, _ = f1.result()
+        pevs, pv, pbad = f2.result()
+        revs, rv, _ = f3.result()
+    require(len(pbad) >= 4, "C18: proof self-test events could not be built")
+    v = _record(rep, "replay", evs, v, bad)
+    pv = _record(rep, "proofs", pevs, pv, pbad)
+    rv = _record(rep, "rand", revs, rv, [])
     rep.notes["accepted_proofs_ending_in_empty_clause"] = sum(1 for e in pevs if e["outcome"] == "accepted")
     require(rep.notes["traces"]["proofs"]["nontrivial"] >= (100 if quick else 300), "C18: too few whole proofs examined (vacuity guard)")
+    require(rep.notes["traces"]["rand"]["nontrivial"] >= (100 if quick else 1000), "C18: too few random larger steps examined (vacuity guard)")
     acc = collections.Counter(e["rule"] for e in evs if e["outcome"] == "accepted")
     rep.notes["rules_with_accepted_steps"] = len(acc)
     rep.notes["accepted_near_misses"] = sum(1 for e in evs if e["outcome"] == "accepted" and e["mut"] != "correct")
